@@ -413,7 +413,7 @@ theorem endChecks_same {cfg : Cfg} {a b a' : HState} (hs : a.Same b) (he : endCh
     | ok _ =>
       rw [h2] at he
       simp only [Res.bind_ok] at he ⊢
-      cases h3 : checkGlobals cfg.globals a.globals with
+      cases h3 : checkGlobals cfg.args a.args cfg.globals a.globals with
       | throw e => rw [h3] at he; cases he
       | oob w => rw [h3] at he; cases he
       | ok _ =>
@@ -453,7 +453,7 @@ theorem evalArguments_replays (cfg : Cfg) (h0 hf : HState) (argv : List Word) (h
           | oob w => rw [c2] at he; cases he
           | ok _ =>
             rw [c2] at he; simp only [Res.bind_ok] at he
-            cases c3 : checkGlobals cfg.globals h1.globals with
+            cases c3 : checkGlobals cfg.args h1.args cfg.globals h1.globals with
             | throw e => rw [c3] at he; cases he
             | oob w => rw [c3] at he; cases he
             | ok _ =>
